@@ -294,7 +294,8 @@ def species_tree(dendropy, sp):
     """sp: {"par": [...], "len": [str|None], "pop": [int|None], "ng": [int]}; nodes in pre-order, children in index order"""
     n = len(sp["par"])
     leaves = [i for i in range(n) if i not in sp["par"]]
-    tns = dendropy.TaxonNamespace(["S%d" % i for i in leaves])
+    lab = sp.get("lab") or ["S%d" % i for i in range(n)]
+    tns = dendropy.TaxonNamespace([lab[i] for i in leaves])
     nodes = [dendropy.Node() for _ in range(n)]
     for i in range(n):
         if sp["len"][i] is not None:
@@ -302,12 +303,13 @@ def species_tree(dendropy, sp):
         if sp["pop"][i] is not None:
             nodes[i].edge.pop_size = sp["pop"][i]
         if i in leaves:
-            nodes[i].taxon = tns.get_taxon("S%d" % i)
+            nodes[i].taxon = tns.get_taxon(lab[i])
             nodes[i].num_genes = sp["ng"][i]
         if sp["par"][i] >= 0:
             nodes[sp["par"][i]].add_child(nodes[i])
     tree = dendropy.Tree(taxon_namespace=tns, seed_node=nodes[0])
     tree.is_rooted = True
+    tree._verif_nodes = nodes      # harness-side handle on the node objects by spec index (histories edit them in place)
     return tree, leaves
 
 
@@ -567,17 +569,216 @@ def model_line(case, log, tree, aux):
             mode, ng, dflt = "fix", [p["num_genes"] if i in leafset else 0 for i in range(n)], 1
         else:
             mode, ng, dflt = "fix", [sp["ng"][i] if i in leafset else 0 for i in range(n)], 1
-        lens = ["N" if x is None else str(int(Fraction(x) * SC)) for x in sp["len"]]
+        lab = sp.get("lab") or ["S%d" % i for i in range(n)]
+        idx_of = dict((l, i) for i, l in enumerate(lab))
+        lens = ["N" if x is None else scaled(Fraction(x)) for x in sp["len"]]
         pops = [str(dflt if x is None else x) for x in sp["pop"]]
         toks = ["cont", mode, str(n)] + [str(x) for x in sp["par"]] + lens + pops + [str(x) for x in ng]
         # gene leaf name: <species node index>.<gene index within species, from 1>
-        if sim == "ckt" and p["strategy"] == "random_uniform":
-            # label is <species>_<running gene count>; the model numbers genes by the running count too
-            name = lambda nd: "%s.%s" % (nd.taxon.label.rsplit("_", 1)[0][1:], nd.taxon.label.rsplit("_", 1)[1])
-        else:
-            name = lambda nd: "%s.%s" % (nd.taxon.label.rsplit("_", 1)[0][1:], nd.taxon.label.rsplit("_", 1)[1])
+        # (random_uniform: the label is <species>_<running gene count>; the model numbers genes by the running count too)
+        name = lambda nd: "%s.%s" % (idx_of[nd.taxon.label.rsplit("_", 1)[0]], nd.taxon.label.rsplit("_", 1)[1])
         return " ".join(toks + log), model_text(tree, name)
     return None
+
+
+# ------------------------------------------------------------------------------------------------ histories on one containing tree
+def hist_mirror(sp):
+    """harness-side mirror of the containing tree (independent of the library): children lists in order, per-node data"""
+    n = len(sp["par"])
+    return {"children": dict((i, [j for j in range(n) if sp["par"][j] == i]) for i in range(n)),
+            "len": [None if x is None else Fraction(x) for x in sp["len"]], "pop": list(sp["pop"]), "ng": list(sp["ng"]),
+            "lab": list(sp.get("lab") or ["S%d" % i for i in range(n)])}
+
+
+def hist_parent(m, v):
+    for i, cs in m["children"].items():
+        if v in cs:
+            return i
+    return None
+
+
+def hist_subtree(m, v):
+    out, stack = [], [v]
+    while stack:
+        x = stack.pop()
+        out.append(x)
+        stack.extend(m["children"][x])
+    return out
+
+
+def hist_spec(m):
+    """the containing tree as it stands, renumbered in pre-order (children order kept), labels carried along"""
+    order, stack = [], [0]
+    while stack:
+        x = stack.pop()
+        order.append(x)
+        stack.extend(reversed(m["children"][x]))
+    new = dict((old, k) for k, old in enumerate(order))
+    par = [-1] * len(order)
+    for old in order:
+        for c in m["children"][old]:
+            par[new[c]] = new[old]
+    return {"par": par, "len": [None if m["len"][o] is None else str(m["len"][o]) for o in order],
+            "pop": [m["pop"][o] for o in order], "ng": [m["ng"][o] for o in order], "lab": [m["lab"][o] for o in order]}
+
+
+def hist_apply(m, tree, e):
+    """one in-place edit of the live containing tree (through the public API) and the same edit on the mirror"""
+    nodes = tree._verif_nodes
+    if e["op"] == "scale":
+        k = Fraction(e["k"])
+        tree.scale_edges(float(k))
+        m["len"] = [None if x is None else x * k for x in m["len"]]
+    elif e["op"] == "len":
+        nodes[e["i"]].edge.length = float(Fraction(e["v"]))
+        m["len"][e["i"]] = Fraction(e["v"])
+    elif e["op"] == "pop":
+        nodes[e["i"]].edge.pop_size = e["v"]
+        m["pop"][e["i"]] = e["v"]
+    elif e["op"] == "regraft":
+        v, u = e["v"], e["u"]
+        pv = hist_parent(m, v)
+        nodes[pv].remove_child(nodes[v])
+        nodes[u].add_child(nodes[v])
+        m["children"][pv].remove(v)
+        m["children"][u].append(v)
+    else:
+        raise ValueError(e)
+
+
+def gen_edit(rng, m):
+    n = len(m["len"])
+    non_root = list(range(1, n))
+    r = rng.random()
+    if r < 0.3 or not non_root:
+        return {"op": "scale", "k": rng.choice(["2", "3", "2", "1/2"])}
+    if r < 0.55:
+        i = rng.choice(non_root)
+        return {"op": "len", "i": i, "v": str((m["len"][i] or Fraction(1)) + Fraction(rng.randint(1, 12), 4))}
+    if r < 0.75:
+        return {"op": "pop", "i": rng.choice(non_root), "v": rng.choice([1, 2, 3, 5])}
+    cands = []
+    for v in non_root:
+        pv = hist_parent(m, v)
+        if len(m["children"][pv]) < 2:
+            continue
+        sub = set(hist_subtree(m, v))
+        for u in range(n):
+            if u not in sub and u != pv and m["children"][u]:
+                cands.append((v, u))
+    if not cands:
+        return {"op": "scale", "k": "2"}
+    v, u = rng.choice(cands)
+    return {"op": "regraft", "v": v, "u": u}
+
+
+def gen_hist(rng):
+    sp = gen_species(rng, 5, False)
+    sp["len"] = [x if (x is not None or i == 0) else "1" for i, x in enumerate(sp["len"])]
+    m = hist_mirror(sp)
+
+    class _T(object):       # edits are validated on the mirror only
+        def __init__(self, n):
+            self._verif_nodes = [_N() for _ in range(n)]
+
+        def scale_edges(self, k):
+            pass
+
+    class _N(object):
+        class _E(object):
+            pass
+
+        def __init__(self):
+            self.edge = _N._E()
+
+        def remove_child(self, x):
+            pass
+
+        def add_child(self, x):
+            pass
+    dummy = _T(len(sp["par"]))
+    steps = []
+    for _ in range(rng.randint(1, 3)):
+        group = []
+        for _ in range(rng.randint(1, 2)):
+            e = gen_edit(rng, m)
+            hist_apply(m, dummy, e)
+            group.append(e)
+        steps.append(group)
+    return {"sim": "cont_hist", "params": {"sp": sp, "steps": steps, "calls_before": rng.randint(1, 2)},
+            "rng": {"kind": rng.choice(["script", "script", "real"]), "seed": rng.getrandbits(32), "tape": []}}
+
+
+def history_case(ctx, dendropy, case, pending):
+    """contained_coalescent_tree called repeatedly on ONE containing-tree object that is edited in place between calls.
+    Clause (c) is judged against the tree AS IT STANDS at each call (rebuilt from the harness's own mirror); clause (d):
+    a call on the used object must equal a call on a fresh copy of the tree as it stands, from an equal generator state."""
+    from dendropy.simulate import treesim
+    p = case["params"]
+    exact = case["rng"]["kind"] == "script"
+    m = hist_mirror(p["sp"])
+    live, leaves = species_tree(dendropy, p["sp"])
+    gmap = dendropy.TaxonNamespaceMapping.create_contained_taxon_mapping(
+        containing_taxon_namespace=live.taxon_namespace, num_contained=[p["sp"]["ng"][i] for i in leaves],
+        contained_taxon_label_separator="_")
+    problems = []
+    call_no = [0]
+
+    def call(tag):
+        call_no[0] += 1
+        spec_now = hist_spec(m)
+        rspec = dict(case["rng"], seed=case["rng"]["seed"] + call_no[0])
+        r1, r2 = make_rng(rspec), make_rng(rspec)
+        with GlobalWatch() as gw:
+            with time_limit(30):
+                g_live = treesim.contained_coalescent_tree(live, gmap, rng=r1)
+        if gw.touched():
+            problems.append(("global_rng/cont", "%s: the call also used %s" % (tag, " and ".join(gw.touched()))))
+        fresh, fl = species_tree(dendropy, spec_now)
+        fmap = dendropy.TaxonNamespaceMapping.create_contained_taxon_mapping(
+            containing_taxon_namespace=fresh.taxon_namespace, num_contained=[spec_now["ng"][i] for i in fl],
+            contained_taxon_label_separator="_")
+        with time_limit(30):
+            g_fresh = treesim.contained_coalescent_tree(fresh, fmap, rng=r2)
+        o_shape(g_live, problems)
+        o_taxa(g_live, problems, expect_in_namespace=False)
+        before = len(problems)
+        o_contained(g_live, species_tree(dendropy, spec_now)[0], exact, problems)
+        problems[before:] = [(k, "%s: %s" % (tag, w)) for k, w in problems[before:]]
+        if canon(g_live, exact) != canon(g_fresh, exact):
+            problems.append(("stale_state", "%s: the call on the re-used containing-tree object returned %s, a call on a fresh copy of the "
+                             "tree as it stands (equal generator state) returned %s" % (tag, canon(g_live, exact)[:250], canon(g_fresh, exact)[:250])))
+        elif exact and not problems:
+            try:
+                ml = model_line({"sim": "cont", "params": {"sp": spec_now}}, r1.log, g_live, None)
+                pending.append((ml[0], case, ml[1]))
+            except ValueError as e:
+                ctx.note("not comparable: %s" % e)
+
+    try:
+        for k in range(p.get("calls_before", 1)):
+            call("call %d on the tree as built" % (k + 1))
+        for si, group in enumerate(p["steps"]):
+            for e in group:
+                hist_apply(m, live, e)
+            call("call after edits %s" % json.dumps(p["steps"][:si + 1]))
+    except ScriptExhausted:
+        ctx.count("script_exhausted")
+        return
+    except Timeout:
+        ctx.fail("hang", "%s did not return within 30 s" % describe(case), case)
+        return
+    except Exception as e:
+        ctx.fail("exception", "%s raised %s: %s" % (describe(case), type(e).__name__, str(e)[:200]), case)
+        return
+    ctx.case([case["sim"], p, case["rng"]], True, sample={"case": case} if len(json.dumps(case)) < 1500 else None,
+             kind="cont_hist/" + case["rng"]["kind"])
+    seen = set()
+    for kind, what in problems:
+        if kind in seen:
+            continue
+        seen.add(kind)
+        ctx.fail(kind, "%s: %s" % (describe(case), what), case)
 
 
 # ------------------------------------------------------------------------------------------------ one case
@@ -587,6 +788,8 @@ def describe(case):
 
 def one_case(ctx, dendropy, case, pending, compare=True):
     sim = case["sim"]
+    if sim == "cont_hist":
+        return history_case(ctx, dendropy, case, pending)
     exact = case["rng"]["kind"] == "script"
     runs = []
     junk = []
@@ -1049,12 +1252,14 @@ def run(ctx):
             case = gen_rv(rng)
         if rng.random() < 0.10:
             case = gen_evolving(rng)
+        if rng.random() < 0.05:
+            case = gen_hist(rng)
         if rng.random() < 0.004:
             # the refusal stream: an empty namespace
             sim0 = rng.choice(["pb", "king"])
             case = {"sim": sim0, "params": {"ns": ["sp", 0], "b": "1", "pop": 1}, "rng": gen_script(rng), "expect_error": True}
         one_case(ctx, dendropy, case, pending)
-        if case["sim"] != "rv" and len(fresh) < ctx.pick(16, 60) and rng.random() < 0.2:
+        if case["sim"] not in ("rv", "cont_hist") and not case.get("expect_error") and len(fresh) < ctx.pick(16, 60) and rng.random() < 0.2:
             fresh.append(case)
         if len(pending) >= 300:
             flush(ctx, pending)
